@@ -399,9 +399,10 @@ def r10_8(ctx):
     idx = get_index(ctx.env)
     hybrid_temp_type_checks(ctx)
     # --- register operand widths (table shared with C07)
-    from .c07 import r07_1, r07_8
+    from .c07 import r07_1, r07_7, r07_8
 
     r07_1(ctx)
+    r07_7(ctx)
     r07_8(ctx)
     # --- the declared type of an operator node is the type of the term it emits (shift: the left operand's)
     from .c02 import r02_4
